@@ -194,8 +194,9 @@ class InternalCompiler(Compiler):
         for i in erets:
             qc.cx(i, dest)
 
-        # 4. Perform the MCX between all args
-        qc.mcx(erets, dest)
+        # 4. Perform the MCX between all args (a | a = a: nothing to correct)
+        if len(erets) > 1:
+            qc.mcx(erets, dest)
 
         # 5. Mark ancilla every argument and return
         [qc.mark_ancilla(eret) for eret in erets]
